@@ -101,3 +101,13 @@ package utils
 //@   ensures notready-sorted: forall a int, b int :: 0 <= a && a < b && b < len(result.1) ==> !(result.1[b].Target < result.1[a].Target)
 //@ end
 
+
+// C16 / C03 — the port a draining pod is reached on: a numeric targetPort is
+// the container port itself (IntOrString.IntValue modelled on the struct content)
+//@ func FindContainerPort
+//@   props C16 C03
+//@   modifies nothing
+//@   ensures numeric: svcPort.TargetPort.Type == 0 && svcPort.TargetPort.IntVal > 0 ==> result == svcPort.TargetPort.IntVal
+//@   loop 1 invariant none: true
+//@   loop 2 invariant none: true
+//@ end
